@@ -34,6 +34,32 @@ func c44ParseRef(s string, def int, nonZero bool) (int, bool) {
 	return n, true
 }
 
+// c44ParseLenient: the spellings an implementation may accept without contradicting the statement - ASCII decimal
+// digits with an optional '+' (or a '-' in front of zero), of any magnitude. itemsPerPage must still be non-zero.
+func c44ParseLenient(s string, def int, nonZero bool) (*big.Int, bool) {
+	if s == "" {
+		return big.NewInt(int64(def)), true
+	}
+	neg := false
+	if s[0] == '+' || s[0] == '-' {
+		neg = s[0] == '-'
+		s = s[1:]
+	}
+	if s == "" {
+		return nil, false
+	}
+	for _, c := range s {
+		if c < '0' || c > '9' {
+			return nil, false
+		}
+	}
+	v, ok := new(big.Int).SetString(s, 10)
+	if !ok || (neg && v.Sign() != 0) || (nonZero && v.Sign() == 0) {
+		return nil, false
+	}
+	return v, true
+}
+
 func c44ParamGen(label string) *rapid.Generator[string] {
 	return rapid.OneOf(
 		rapid.Just(""),
@@ -74,10 +100,41 @@ func TestVerifC44Paginate(t *testing.T) {
 		desc := fmt.Sprintf("n=%d ipp=%q page=%q", n, ippS, pageS)
 
 		if !valid {
-			rec.Case(false, desc, "invalid")
 			if err == nil {
-				t.Fatalf("invalid parameters accepted: %s -> pageCount=%d", desc, pc)
+				// Spellings on which "valid" is a matter of taste (an explicit sign in front of a non-negative number,
+				// a number above 2^31-1): the statement does not say they must be rejected. If the code accepts one it
+				// must treat it as the number it denotes; anything else accepted is a violation.
+				bi, a1 := c44ParseLenient(ippS, 100, true)
+				bp, a2 := c44ParseLenient(pageS, 0, false)
+				if !a1 || !a2 {
+					t.Fatalf("invalid parameters accepted: %s -> pageCount=%d", desc, pc)
+				}
+				bn := big.NewInt(int64(n))
+				wantPC := new(big.Int)
+				if n > 0 {
+					wantPC.Add(bn, bi).Sub(wantPC, big.NewInt(1)).Div(wantPC, bi)
+				}
+				lo := new(big.Int).Mul(bp, bi)
+				hi := new(big.Int).Add(lo, bi)
+				if lo.Cmp(bn) > 0 {
+					lo = bn
+				}
+				if hi.Cmp(bn) > 0 {
+					hi = bn
+				}
+				want := orig[lo.Int64():hi.Int64()]
+				if big.NewInt(int64(pc)).Cmp(wantPC) != 0 || len(work) != len(want) {
+					t.Fatalf("%s accepted (lenient spelling) but not as the numbers it denotes: pageCount=%d want %v, %d items want %d", desc, pc, wantPC, len(work), len(want))
+				}
+				for i := range want {
+					if work[i] != want[i] {
+						t.Fatalf("%s accepted (lenient spelling): item %d = %d want %d", desc, i, work[i], want[i])
+					}
+				}
+				rec.Case(false, desc, "lenient-spelling-accepted")
+				return
 			}
+			rec.Case(false, desc, "invalid")
 			if len(work) != n {
 				t.Fatalf("list modified on rejected parameters: %s", desc)
 			}
